@@ -28,7 +28,10 @@ def encode(lvls, bl0, meta=None) -> bytes:
             slots = [b"\x00\x00\x00\x00"] * p["n"]
             for e in p["evs"]:
                 ne += 1
-                if p["ch"] == 1:
+                if p["ch"] == 0:
+                    nn += 0
+                    slots[e["i"]] = struct.pack("<f", e["f1000"] / 1000.0)     # measure-fraction package (EXTENSION)
+                elif p["ch"] == 1:
                     slots[e["i"]] = struct.pack("<f", _bpm(e["bl"]))
                 else:
                     nn += 1
@@ -86,7 +89,11 @@ def decode(b: bytes) -> dict:
             for i in range(n):
                 raw = b[pos:pos + 4]
                 pos += 4
-                if ch == 1:
+                if ch == 0:
+                    (v,) = struct.unpack("<f", raw)
+                    if i == 0:
+                        evs.append({"i": 0, "kind": 0, "vol": 0, "pan": 0, "bl": 0, "f1000": int(round(v * 1000))})
+                elif ch == 1:
                     (v,) = struct.unpack("<f", raw)
                     if v != 0:
                         evs.append({"i": i, "kind": 0, "vol": 0, "pan": 0, "bl": _bl(v)})
